@@ -100,6 +100,10 @@ def disconnect_contract(world, target):
         for k, v in out_one(c.pre, c.post, e, lambda get: z3.And(get('ptype') == DISCONNECT_T, get('ns') == ns, get('id') == NONE, get('data') == NONE)).items():
             d['client-told.' + k] = v
         d['user-session-destroyed@C16'] = session_gone(c.post, e, ns)
+        # per-peer order (C14): the leaving client is told before its disconnect handler runs (what the handler sends comes after)
+        idx = {k_: [i for i, n in enumerate(c.ctx.notes) if n[0] == 'called' and n[1].endswith(k_)] for k_ in ('._send_packet', '._trigger_event')}
+        if idx['._send_packet'] and idx['._trigger_event']:
+            d['client-told-before-its-disconnect-handler-runs@C14'] = z3.BoolVal(max(idx['._send_packet']) < min(idx['._trigger_event']))
         return d
     return Contract(
         target=target, schema=world, self_obj='server', params={'sid': 'V', 'namespace': 'V', 'ignore_queue': 'V'},
